@@ -113,7 +113,7 @@ def rule_preroll(rep, tname, m):
                            consts=const_types(facts, RESAMPLERS[tname]["mod"])), consts=consts_for(facts, RESAMPLERS[tname]["mod"]))
         d = calg.conv(dim)
         # express H in constructor terms: self.interpolator.len() -> interpolator.len()
-        Hc = calg.conv(ir.subst(strip_self(sh["hi"]), {})) - calg.conv(strip_self(sh["A"]))
+        Hc = calg.conv(to_ctor(sh["hi"], inits)) - calg.conv(to_ctor(sh["A"], inits))
         rest = sp.expand(d - Hc)
         Lsyms = [s for s in Hc.free_symbols] + [a for a in Hc.atoms(sp.Function)]
         ok = True
@@ -142,6 +142,21 @@ def rule_preroll(rep, tname, m):
             rep.ob(R, akey, sp.simplify(base - H) == 0,
                    "read `%s` is offset by %s from the position; history length is %s" % (what, base, H), loc(fn, a["node"]),
                    sample={"arm": akey, "read_base": str(base)})
+
+
+def to_ctor(e, inits):
+    """Rewrite an expression over self.<field> into the constructor's namespace: each field read is replaced by the
+    expression the constructor initialises that field with (parameters / locals inlined)."""
+    if isinstance(e, list):
+        return [to_ctor(x, inits) for x in e]
+    if not isinstance(e, dict):
+        return e
+    if is_self_field(e):
+        if e["name"] in inits:
+            import copy
+            return copy.deepcopy(inits[e["name"]])
+        return ir.path(e["name"])
+    return {k: (to_ctor(v, inits) if isinstance(v, (dict, list)) and k != "ln" else v) for k, v in e.items()}
 
 
 def strip_self(e):
